@@ -13,6 +13,10 @@ def tasks(run):
 
 
 def run(run):
+    from pyvc import skeleton
+    skeleton.apply(run, 'C15')
+    from pyvc import leancheck
+    leancheck.check(run, 'Blocks.lean', 'orthogonal block projections satisfy the imposed relations')
     from pyvc import components, runner
     runner.load_contracts()
     components.ast_functions(run, ['PEPit/block_partition.py::BlockPartition.get_block', 'PEPit/block_partition.py::BlockPartition.add_constraint'],
